@@ -2583,7 +2583,7 @@ def optimise_quantize(op: Operation, arch, nng):
         elif ifm.dtype.type == BaseType.Float:
 
             quantized_vals = []
-            for val in input_values:
+            for val in input_values.flatten():
 
                 # Derive quantized value
                 # round like the reference kernel (the integer cast below would truncate toward zero)
@@ -2593,6 +2593,7 @@ def optimise_quantize(op: Operation, arch, nng):
 
             # Pass the statically calculated quant val to output tensor
             ofm.values = np.array(quantized_vals, ofm.dtype.as_numpy_type())
+            ofm.values.shape = input_values.shape
 
         # Unsupported data type
         else:
